@@ -59,6 +59,15 @@ def spec(module, source, macro, fn, args, unwind, **kw):
     return s
 
 
+def plain(module, source, fn, **kw):
+    """A harness written out as a plain #[kani::proof] function in the source file (no instantiation line)."""
+    uw = kw.pop("unwind", None)
+    s = spec(module, source, "", fn, [], 0, **kw)
+    s["inst"] = ""
+    s["unwind"] = uw
+    return s
+
+
 # ------------------------------------------------------------------------------------------------
 # C01
 # ------------------------------------------------------------------------------------------------
@@ -487,7 +496,43 @@ def c10(tier, seed):
     return out
 
 
+# ------------------------------------------------------------------------------------------------
+# C12
+# ------------------------------------------------------------------------------------------------
+
+def c12(tier, seed):
+    out = []
+    out.append(plain("verif_c12", "c12.rs", "c12_value_and", n=32, fam="Cube",
+                     covers={"reached": "SATISFIED", "contradiction created by the conjunction": "SATISFIED", "conjunction satisfied": "SATISFIED"},
+                     what="Cube over all 32 variables: value(m) by definition; a & b (4 reference forms) denotes the conjunction; a contradictory result is exactly the canonical zero cube; is_zero/is_one/is_constant"))
+    out.append(plain("verif_c12", "c12.rs", "c12_eq_semantic", n=32, fam="Cube", unwind=None,
+                     covers={"reached": "SATISFIED", "equal although built from different masks (both zero)": "SATISFIED", "different": "SATISFIED"},
+                     what="Cube equality is semantic: a == b implies equal values on a symbolic assignment; a != b implies one of 4 Skolem assignments distinguishes them"))
+    out.append(plain("verif_c12", "c12.rs", "c12_implies_intersects", n=32, fam="Cube",
+                     covers={"reached": "SATISFIED", "proper implication": "SATISFIED", "overlap without implication": "SATISFIED", "zero implies everything": "SATISFIED"},
+                     what="implies / intersects over all 32 variables: sound for a symbolic assignment and complete by Skolem witnesses"))
+    out.append(plain("verif_c12", "c12.rs", "c12_constructors_counts", n=32, fam="Cube", unwind=5,
+                     covers={"reached": "SATISFIED", "31-variable minterm": "SATISFIED", "0-variable minterm": "SATISFIED", "contradictory from_vars": "SATISFIED"},
+                     what="minterm(n<=31, x), nth_var, nth_var_inv, one, zero, from_vars (<=3+3 symbolic literals) against from_mask; num_lits / num_gates"))
+    out.append(plain("verif_c12", "c12.rs", "c12_minterm32", n=32, fam="Cube",
+                     what="minterm(32, x).value(m) iff m == x (all 32 variables)"))
+    for n in range(0, 6):
+        out.append(spec("verif_c12", "c12.rs", "c12_all", "c12_all_%d" % n, [n], (1 << (2 * n)) + 3,
+                        tier="quick" if n <= 3 else "thorough", n=n, fam="Cube", timeout=3000, mem=2 if n >= 4 else 1,
+                        optional=(n >= 5),
+                        covers={"reached": "SATISFIED", "cube inside the enumeration": "SATISFIED", "cube outside the enumeration": "SATISFIED"},
+                        what="Cube::all(%d): a symbolic cube occurs exactly once if it is a non-zero cube over variables < n and never otherwise; 3^n items, none zero" % n))
+    for n in range(0, 7):
+        fam = "d%d" % n
+        out.append(spec("verif_c12", "c12.rs", "c12_implies_lut", "c12_implies_lut_%d" % n, [fam], (1 << n) + 3,
+                        tier="quick" if n <= 4 else "thorough", n=n, fam="Cube,Lut", timeout=3000, mem=2 if n >= 5 else 1,
+                        covers={"reached": "SATISFIED", "non-zero implicant": "SATISFIED", "not an implicant": "SATISFIED"},
+                        what="implies_lut on a symbolic %d-variable function and a symbolic cube over 32 variables: true implies implicant (symbolic assignment), false implies the definitional scan finds a counterexample" % n))
+    return out
+
+
 PROPS = {
+    "C12": c12,
     "C10": c10,
     "C09": c09,
     "C06": c06,
